@@ -76,10 +76,13 @@ CHECKS = {
    text="StdLib.tla states the contracts from the procedures' documentation: truncate_stack = the original top 16 elements; memcopy = n words copied one after the other; pipe_words_to_memory = the advice words in order, the advanced pointer and the RPO hash of the moved elements, pipe_preimage_to_memory = the same with a commitment that must match; Merkle mountain range = one peak per set bit of the leaf count (checked on the model: peak count = popcount), each peak the Merkle root of its leaves, get(pos) = the pos-th leaf; sparse Merkle tree = a key -> value map whose set returns the old value. TLC enumerates every stack depth 16..40, every (n <= 5, read_ptr, write_ptr) over overlapping ranges, every word count 0..5, every leaf count up to 9 (thorough: 20) with every position, every initial map x every history of get / set / remove of length 2 (thorough: 3) over three keys, two of which share a leaf, each with the prescribed result; every scenario is compiled into a program that calls the real std:: procedures and run on the VM in two build profiles; stack, memory words and roots are compared with the prescription and with the native miden-crypto Mmr / Smt.",
    note="Trusted: TLC; miden-crypto's Mmr / Smt / RPO as the native data structures. Leaves holding more than one key-value pair are documented as unimplemented in smt.masm and are outside the enumerated histories.",
    tech="TLA+ contracts of the standard-library procedures; TLC-enumerated calls and histories replayed on the VM and compared with the prescription and the native data structures", ref="DESIGN.md §4 C18"),
+ "C17": dict(cat="model_checking",
+   text="Hashes.tla transcribes SHA-256 (FIPS 180-4), BLAKE3 (single-block compression, the case the library exposes) and Keccak-256 (FIPS 202 permutation and sponge with the original Keccak padding; round constants and rotation offsets computed from their definitions inside the spec) on 16-bit half-words; TLC checks the transcription against the published digests (empty message, 'abc', messages around the padding boundaries, multi-block) before anything else. GEN_Hash enumerates input patterns (constant, counting, alternating, one-hot bits at word boundaries, pseudo-random) x every exported procedure (sha256::hash_2to1 / hash_1to1 / hash_memory over byte lengths around the padding boundaries, blake3::hash_2to1 / hash_1to1, keccak256::hash and the bit-interleaving helpers, native::hash_memory over even and odd word counts) with the prescribed digest; every case runs on the real VM in two build profiles with sentinels underneath and must equal the prescription on every stack position. The native helper is compared with the RPO sponge definition (capacity flag, padding, overwrite mode) evaluated with the permutation the VM's hasher uses, and with hash_elements.",
+   note="Trusted: TLC; the RPO permutation as a primitive. The sha2 / sha3 / blake3 crates are used only to cross-check the model's digests (a disagreement is a tool error, not a finding). Message sizes: the fixed sizes the procedures accept and hash_memory lengths up to 256 bytes.",
+   tech="TLA+ transcription of the reference hash definitions pinned by published test vectors in TLC; TLC-computed digests for generated inputs replayed on the VM's standard-library procedures", ref="DESIGN.md §4 C17"),
 }
 
 NOT_APPLICABLE = {
- "C17": "pure bit-level hash functions (BLAKE3/SHA-256/Keccak) have no state machine or case analysis a TLA+ model could decide; see DESIGN.md §5",
 }
 
 ALL = ["C%02d" % i for i in range(1, 20)]
